@@ -23,6 +23,14 @@ theorem canon_comm {v w : Nat} (h : v ≠ w) : canon v w = canon w v := by
   · have : w < v := by omega
     simp [h1, this]
 
+theorem canon_eq {a b c d : Nat} (h : canon a b = canon c d) : (a = c ∧ b = d) ∨ (a = d ∧ b = c) := by
+  unfold canon at h
+  split at h <;> split at h <;> simp only [Prod.mk.injEq] at h
+  · exact Or.inl h
+  · exact Or.inr h
+  · exact Or.inr ⟨h.2, h.1⟩
+  · exact Or.inl ⟨h.2, h.1⟩
+
 theorem hasKey_iff {α} (m : List (Nat × α)) (k : Nat) : hasKey m k = true ↔ ∃ p ∈ m, p.1 = k := by
   induction m with
   | nil => simp [hasKey]
@@ -86,6 +94,8 @@ structure GI (G : Graph) (Excl : Nat → Nat → Prop) (st : DSt) (stk : List Na
   apC    : ∀ x, st.seen x → x ∉ stk → CutSpec G x → x ∈ st.ap
   brS    : ∀ e ∈ st.br, ∃ a b, e = canon a b ∧ BridgeSpec G a b
   brC    : ∀ a b, BridgeSpec G a b → st.seen a → a ∉ stk → st.seen b → ¬ Excl a b → canon a b ∈ st.br
+  brSeen : ∀ e ∈ st.br, ∃ a b, e = canon a b ∧ st.seen a ∧ st.seen b
+  brNd   : st.br.Nodup
 
 /-- number of undiscovered nodes (bounds the recursion depth) -/
 def unseenCount (G : Graph) (st : DSt) : Nat := (G.nodes.filter fun x => !hasKey st.disc x).length
@@ -106,6 +116,7 @@ structure Post (G : Graph) (st st' : DSt) (v : Nat) (stk : List Nat) : Prop wher
   apNew : ∀ x ∈ st'.ap, x ∈ st.ap ∨ (st'.seen x ∧ ¬ st.seen x)
   apMono : ∀ x ∈ st.ap, x ∈ st'.ap
   brMono : ∀ e ∈ st.br, e ∈ st'.br
+  brNew : ∀ e ∈ st'.br, e ∈ st.br ∨ ∃ a b, e = canon a b ∧ (st'.seen a ∧ ¬ st.seen a) ∧ (st'.seen b ∧ ¬ st.seen b)
   low0  : st'.lo v ≤ st'.dn v
   low1  : ∃ u, st'.seen u ∧ st'.lo v = st'.dn u ∧ (u = v ∨ ∃ x, (st'.seen x ∧ ¬ st.seen x) ∧ G.A x u ∧
             ¬ (x = v ∧ stk.head? = some u))
@@ -143,6 +154,9 @@ structure FI (G : Graph) (st : DSt) (v : Nat) (stk : List Nat) (Pd : List Nat) (
   brMono : ∀ e ∈ st.br, e ∈ cur.br
   brC   : ∀ a b, BridgeSpec G a b → ((st.seen a ∧ a ∉ stk) ∨ ((cur.seen a ∧ ¬ st.seen a) ∧ a ≠ v)) →
             cur.seen b → canon a b ∈ cur.br
+  brSeen : ∀ e ∈ cur.br, ∃ a b, e = canon a b ∧ cur.seen a ∧ cur.seen b
+  brNd  : cur.br.Nodup
+  brNew : ∀ e ∈ cur.br, e ∈ st.br ∨ ∃ a b, e = canon a b ∧ (cur.seen a ∧ ¬ st.seen a) ∧ (cur.seen b ∧ ¬ st.seen b)
 
 /-! ### separation lemmas -/
 
@@ -284,6 +298,11 @@ theorem fi_init (G : Graph) (st : DSt) (v : Nat) (stk : List Nat) (hpre : Pre G 
       apply hpre.gi.brC a b hb h1 h2 _ (fun h => h)
       exact hpre.gi.closed a h1 h2 b hb.1
     · exact absurd (hnew a h1 h2) h3
+  · intro e he
+    obtain ⟨a, b, h1, h2, h3⟩ := hpre.gi.brSeen e he
+    exact ⟨a, b, h1, (seen_enter st v a).2 (Or.inr h2), (seen_enter st v b).2 (Or.inr h3)⟩
+  · exact hpre.gi.brNd
+  · intro e he; exact Or.inl he
 
 /-! ### a neighbour that is already discovered -/
 
@@ -371,6 +390,9 @@ theorem fi_step_seen (G : Graph) (st : DSt) (v : Nat) (stk : List Nat) (hpre : P
   · exact hfi.brS
   · exact hfi.brMono
   · exact hfi.brC
+  · exact hfi.brSeen
+  · exact hfi.brNd
+  · exact hfi.brNew
 
 /-! ### an undiscovered neighbour: the recursive call -/
 
@@ -412,6 +434,8 @@ theorem child_pre (G : Graph) (st : DSt) (v : Nat) (stk : List Nat) (hpre : Pre 
       by_cases hso : st.seen a
       · exact hfi.brC a b hb (Or.inl ⟨hso, hastk⟩) hbs
       · exact hfi.brC a b hb (Or.inr ⟨⟨ha, hso⟩, hav⟩) hbs
+    · exact hfi.brSeen
+    · exact hfi.brNd
   · exact (G.A_mem hvw).2
   · exact hwn
   · show aget (aset cur.parent w (some v)) w none = (v :: stk).head?
@@ -849,6 +873,53 @@ theorem fi_step_child (G : Graph) (st : DSt) (v : Nat) (stk : List Nat) (hpre : 
       rintro ⟨h1, h2⟩
       simp only [List.head?_cons, Option.some.injEq] at h2
       exact hex ⟨h1, h2.symm⟩
+  · -- brSeen
+    intro e he
+    rw [h5br] at he
+    have hold : e ∈ st2.br → ∃ a b, e = canon a b ∧ st5.seen a ∧ st5.seen b := by
+      intro h
+      obtain ⟨a, b, h1, h2, h3⟩ := hpost.gi.brSeen e h
+      exact ⟨a, b, h1, (hs5 a).2 h2, (hs5 b).2 h3⟩
+    split at he
+    · rcases List.mem_append.1 he with h | h
+      · exact hold h
+      · simp only [List.mem_singleton] at h
+        exact ⟨v, w, h, (hs5 v).2 (hfr v hfi.seenv.1).1, (hs5 w).2 hwN.1⟩
+    · exact hold he
+  · -- brNd
+    rw [h5br]
+    split
+    · rw [List.nodup_append]
+      refine ⟨hpost.gi.brNd, by simp, ?_⟩
+      intro e he e' he' heq
+      simp only [List.mem_singleton] at he'
+      subst he'
+      subst heq
+      rcases hpost.brNew _ he with h | ⟨a, b, h1, h2, h3⟩
+      · obtain ⟨a, b, h1, h2, h3⟩ := hfi.brSeen _ h
+        rcases canon_eq h1 with ⟨_, e2⟩ | ⟨_, e2⟩
+        · exact hwn (e2 ▸ h3)
+        · exact hwn (e2 ▸ h2)
+      · rcases canon_eq h1 with ⟨e1, _⟩ | ⟨e1, _⟩
+        · exact h2.2 (e1 ▸ hfi.seenv.1)
+        · exact h3.2 (e1 ▸ hfi.seenv.1)
+    · exact hpost.gi.brNd
+  · -- brNew
+    intro e he
+    rw [h5br] at he
+    have hold : e ∈ st2.br → e ∈ st.br ∨ ∃ a b, e = canon a b ∧ (st5.seen a ∧ ¬ st.seen a) ∧ (st5.seen b ∧ ¬ st.seen b) := by
+      intro h
+      rcases hpost.brNew e h with h | ⟨a, b, h1, h2, h3⟩
+      · rcases hfi.brNew e h with h | ⟨a, b, h1, h2, h3⟩
+        · exact Or.inl h
+        · exact Or.inr ⟨a, b, h1, ⟨(hs5 a).2 (hfr a h2.1).1, h2.2⟩, ⟨(hs5 b).2 (hfr b h3.1).1, h3.2⟩⟩
+      · exact Or.inr ⟨a, b, h1, ⟨(hs5 a).2 h2.1, fun h' => h2.2 (hso a h')⟩, ⟨(hs5 b).2 h3.1, fun h' => h3.2 (hso b h')⟩⟩
+    split at he
+    · rcases List.mem_append.1 he with h | h
+      · exact hold h
+      · simp only [List.mem_singleton] at h
+        exact Or.inr ⟨v, w, h, ⟨(hs5 v).2 (hfr v hfi.seenv.1).1, hpre.fresh⟩, ⟨(hs5 w).2 hwN.1, fun h' => hwn (hso w h')⟩⟩
+    · exact hold he
 
 /-! ### after the loop -/
 
@@ -958,12 +1029,266 @@ theorem fi_final (G : Graph) (st : DSt) (v : Nat) (stk : List Nat) (hpre : Pre G
             have := hfi.brC b a (BridgeSpec_symm G hb) (Or.inr ⟨⟨hbs, hbo⟩, hbv⟩) hfi.seenv.1
             rw [canon_comm hbv.symm]; exact this
         · exact hfi.brC a b hb (Or.inr ⟨⟨ha, hso⟩, hav⟩) hbs
+    · exact hfi.brSeen
+    · exact hfi.brNd
   · exact hfi.apNew
   · exact hfi.apMono
   · exact hfi.brMono
+  · exact hfi.brNew
   · exact hfi.low0
   · exact hfi.low1
   · intro x u hx hnx hxu hu hex
     exact hfi.low2 x u hx hnx hxu hu hex (fun e => e ▸ hxu)
+
+/-! ### the recursion -/
+
+theorem unseen_pos (G : Graph) (st : DSt) (v : Nat) (hv : v ∈ G.nodes) (hf : ¬ st.seen v) :
+    0 < unseenCount G st := by
+  unfold unseenCount
+  apply List.length_pos_of_mem (a := v)
+  rw [List.mem_filter]
+  exact ⟨hv, by unfold DSt.seen at hf; simpa using hf⟩
+
+theorem dfs_post (G : Graph) (hn : G.nodes.Nodup) : ∀ (fuel v : Nat) (st : DSt) (stk : List Nat),
+    Pre G st v stk → unseenCount G st ≤ fuel → Post G st (dfs G.sadj fuel v st) v stk := by
+  intro fuel
+  induction fuel with
+  | zero =>
+    intro v st stk hpre hle
+    have := unseen_pos G st v hpre.vmem hpre.fresh
+    omega
+  | succ f ih =>
+    intro v st stk hpre hle
+    unfold dfs
+    -- the loop
+    have loop : ∀ (Rm Pd : List Nat) (acc : DSt × Nat), Pd ++ Rm = G.sadj v →
+        FI G st v stk Pd acc.1 acc.2 →
+        FI G st v stk (G.sadj v) (Rm.foldl (dfsStep (dfs G.sadj f) v) acc).1
+          (Rm.foldl (dfsStep (dfs G.sadj f) v) acc).2 := by
+      intro Rm
+      induction Rm with
+      | nil =>
+        intro Pd acc hsplit hfi
+        rw [List.append_nil] at hsplit
+        rw [← hsplit]; exact hfi
+      | cons w Rm ihR =>
+        intro Pd acc hsplit hfi
+        rw [List.foldl_cons]
+        have hwadj : G.A v w := by
+          show w ∈ G.sadj v
+          rw [← hsplit]; simp
+        have hPd : ∀ x ∈ Pd, G.A v x := by
+          intro x hx
+          show x ∈ G.sadj v
+          rw [← hsplit]; exact List.mem_append_left _ hx
+        apply ihR (Pd ++ [w]) _ (by rw [List.append_assoc]; exact hsplit)
+        obtain ⟨cur, k⟩ := acc
+        simp only at hfi
+        unfold dfsStep
+        simp only
+        split
+        · -- undiscovered: recursive call
+          rename_i hunseen
+          have hwn : ¬ cur.seen w := by
+            unfold DSt.seen; simpa using hunseen
+          have hcpre := child_pre G st v stk hpre Pd cur k hfi w hwadj hwn
+          have hfuel : unseenCount G { cur with parent := aset cur.parent w (some v) } ≤ f := by
+            have := unseen_lt G hn st cur v hpre.vmem hpre.fresh hfi.seenv.1 (fun x hx => (hfi.frame x hx).1)
+            have e : unseenCount G { cur with parent := aset cur.parent w (some v) } = unseenCount G cur := rfl
+            omega
+          have hpost := ih w _ (v :: stk) hcpre hfuel
+          generalize dfs G.sadj f w { cur with parent := aset cur.parent w (some v) } = st2 at hpost
+          have hparv : st2.par v = stk.head? := by
+            have h4 := (hpost.frame v hfi.seenv.1).2.2.2
+            rw [h4]
+            show aget (aset cur.parent w (some v)) v none = _
+            rw [aget_aset, if_neg (fun (e : w = v) => (G.A_ne hwadj) e.symm)]
+            exact hfi.parv
+          obtain ⟨a1, a2, a3, a4, a5, a6⟩ := noteAp_fields
+            { st2 with low := aset st2.low v (min (aget st2.low v 0) (aget st2.low w 0)) }
+            (match aget st2.parent v none with
+              | none => decide (k + 1 ≥ 2)
+              | some _ => decide (aget st2.low w 0 ≥ aget st2.disc v 0)) v
+          obtain ⟨b1, b2, b3, b4, b5, b6⟩ := noteBr_fields
+            (noteAp { st2 with low := aset st2.low v (min (aget st2.low v 0) (aget st2.low w 0)) }
+              (match aget st2.parent v none with
+                | none => decide (k + 1 ≥ 2)
+                | some _ => decide (aget st2.low w 0 ≥ aget st2.disc v 0)) v)
+            (decide (aget st2.low w 0 > aget st2.disc v 0)) (if v < w then (v, w) else (w, v))
+          refine fi_step_child G st v stk hpre Pd cur k hfi hPd w hwadj hwn st2 hpost _
+            (match aget st2.parent v none with
+              | none => decide (k + 1 ≥ 2)
+              | some _ => decide (aget st2.low w 0 ≥ aget st2.disc v 0))
+            (b1.trans a1) (b3.trans a3) (b5.trans a5) (b2.trans a2) (b4.trans a6)
+            (b6.trans (by rw [a4]; rfl)) ?_ ?_
+          · intro p hp
+            have : aget st2.parent v none = some p := by
+              have := hparv; unfold DSt.par at this; rw [this, hp]
+            rw [this]
+            simp only [decide_eq_true_eq]
+            rfl
+          · intro hnil
+            have : aget st2.parent v none = none := by
+              have := hparv; unfold DSt.par at this; rw [this, hnil]; rfl
+            rw [this]
+            simp only [decide_eq_true_eq]
+        · rename_i hseen
+          have hws : cur.seen w := by
+            unfold DSt.seen
+            cases hq : hasKey cur.disc w with
+            | true => rfl
+            | false => rw [hq] at hseen; simp at hseen
+          split
+          · -- back edge (not the tree edge to the parent)
+            rename_i hne
+            have hpne : stk.head? ≠ some w := by
+              intro h
+              have : aget cur.parent v none = some w := by
+                have := hfi.parv; unfold DSt.par at this; rw [this, h]
+              rw [this] at hne; simp at hne
+            refine fi_step_seen G st v stk hpre Pd cur k hfi w hwadj hws _ ?_ ?_ ?_ ?_
+            · intro x hx
+              rw [aget_aset, if_neg (fun (e : v = x) => hx e.symm)]; rfl
+            · rw [aget_aset, if_pos rfl]; exact Nat.min_le_left _ _
+            · rw [aget_aset, if_pos rfl]
+              by_cases hm : aget cur.low v 0 ≤ aget cur.disc w 0
+              · left; rw [Nat.min_eq_left hm]; rfl
+              · right; exact ⟨by rw [Nat.min_eq_right (by omega)]; rfl, hpne⟩
+            · intro _
+              rw [aget_aset, if_pos rfl]; exact Nat.min_le_right _ _
+          · -- the tree edge seen from the child side
+            rename_i hne
+            have hpe : stk.head? = some w := by
+              have h1 : aget cur.parent v none = some w := by
+                cases hq : (aget cur.parent v none != some w) with
+                | true => exact absurd hq hne
+                | false => simpa using hq
+              have := hfi.parv; unfold DSt.par at this; rw [← this, h1]
+            exact fi_step_seen G st v stk hpre Pd cur k hfi w hwadj hws cur.low
+              (fun _ _ => rfl) (Nat.le_refl _) (Or.inl rfl) (fun h => absurd hpe h)
+    have hfinal := loop (G.sadj v) [] (dfsEnter st v, 0) (List.nil_append _) (fi_init G st v stk hpre)
+    exact fi_final G st v stk hpre _ _ hfinal
+
+/-! ### the outer loop -/
+
+theorem unseen_le (G : Graph) (st : DSt) : unseenCount G st ≤ G.nodes.length :=
+  List.length_filter_le _ _
+
+theorem outer_inv (G : Graph) (hn : G.nodes.Nodup) : ∀ (l : List Nat) (st : DSt),
+    (∀ v ∈ l, v ∈ G.nodes) → GI G (fun _ _ => False) st [] →
+    GI G (fun _ _ => False) (l.foldl (fun (st : DSt) v =>
+        if hasKey st.disc v then st
+        else dfs G.sadj (G.nodes.length + 1) v { st with parent := aset st.parent v none }) st) [] ∧
+    (∀ x, (st.seen x ∨ x ∈ l) → (l.foldl (fun (st : DSt) v =>
+        if hasKey st.disc v then st
+        else dfs G.sadj (G.nodes.length + 1) v { st with parent := aset st.parent v none }) st).seen x) := by
+  intro l
+  induction l with
+  | nil => intro st _ h; exact ⟨h, fun x hx => by rcases hx with h | h; exact h; cases h⟩
+  | cons v l ih =>
+    intro st hl hgi
+    rw [List.foldl_cons]
+    have hl' : ∀ x ∈ l, x ∈ G.nodes := fun x hx => hl x (List.mem_cons_of_mem _ hx)
+    split
+    · rename_i hs
+      obtain ⟨h1, h2⟩ := ih st hl' hgi
+      refine ⟨h1, ?_⟩
+      intro x hx
+      rcases hx with h | h
+      · exact h2 x (Or.inl h)
+      · rcases List.mem_cons.1 h with rfl | h
+        · exact h2 x (Or.inl hs)
+        · exact h2 x (Or.inr h)
+    · rename_i hs
+      have hfresh : ¬ st.seen v := hs
+      have hpre : Pre G { st with parent := aset st.parent v none } v [] := by
+        refine ⟨?_, hl v List.mem_cons_self, hfresh, ?_, ?_⟩
+        · exact ⟨hgi.mem, hgi.inj, hgi.lt, hgi.closed, hgi.stkSeen, hgi.chain, hgi.apS, hgi.apC, hgi.brS, hgi.brC,
+            hgi.brSeen, hgi.brNd⟩
+        · show aget (aset st.parent v none) v none = none
+          rw [aget_aset, if_pos rfl]
+        · intro p hp; cases hp
+      have hpost := dfs_post G hn (G.nodes.length + 1) v _ [] hpre
+        (Nat.le_trans (unseen_le G _) (Nat.le_succ _))
+      generalize dfs G.sadj (G.nodes.length + 1) v { st with parent := aset st.parent v none } = st' at hpost
+      have hgi' : GI G (fun _ _ => False) st' [] :=
+        ⟨hpost.gi.mem, hpost.gi.inj, hpost.gi.lt, hpost.gi.closed, hpost.gi.stkSeen, hpost.gi.chain,
+         hpost.gi.apS, hpost.gi.apC, hpost.gi.brS,
+         fun a b hb ha has hbs _ => hpost.gi.brC a b hb ha has hbs (fun h => by cases h.2),
+         hpost.gi.brSeen, hpost.gi.brNd⟩
+      obtain ⟨h1, h2⟩ := ih st' hl' hgi'
+      refine ⟨h1, ?_⟩
+      intro x hx
+      rcases hx with h | h
+      · exact h2 x (Or.inl (hpost.frame x h).1)
+      · rcases List.mem_cons.1 h with rfl | h
+        · exact h2 x (Or.inl hpost.newv.1)
+        · exact h2 x (Or.inr h)
+
+/-- the mirror returns exactly the vertices satisfying `CutSpec` and the canonical pairs of the edges
+satisfying `BridgeSpec` -/
+theorem lowlink_spec (G : Graph) (hn : G.nodes.Nodup) :
+    (∀ x, x ∈ (lowlink G).1 ↔ CutSpec G x) ∧
+    (∀ e, e ∈ (lowlink G).2 ↔ ∃ a b, e = canon a b ∧ BridgeSpec G a b) ∧ (lowlink G).2.Nodup := by
+  unfold lowlink
+  split
+  · rename_i hle
+    -- at most one node: no edge at all
+    have hnoedge : ∀ a b, ¬ G.A a b := by
+      intro a b hab
+      have hm := G.A_mem hab
+      have hne := G.A_ne hab
+      cases hnodes : G.nodes with
+      | nil => rw [hnodes] at hm; cases hm.1
+      | cons c r =>
+        cases r with
+        | nil =>
+          rw [hnodes] at hm
+          simp only [List.mem_singleton] at hm
+          exact hne (hm.1.trans hm.2.symm)
+        | cons d r => rw [hnodes] at hle; simp at hle
+    refine ⟨?_, ?_, List.nodup_nil⟩
+    · intro x
+      simp only [List.not_mem_nil, false_iff]
+      rintro ⟨n1, _, h1, _⟩
+      exact hnoedge x n1 h1
+    · intro e
+      simp only [List.not_mem_nil, false_iff]
+      rintro ⟨a, b, _, hb⟩
+      exact hnoedge a b hb.1
+  · simp only
+    have hinit : GI G (fun _ _ => False) ({} : DSt) [] := by
+      have hno : ∀ x, ¬ ({} : DSt).seen x := fun x h => by simp [DSt.seen, hasKey] at h
+      constructor
+      · intro x h; exact absurd h (hno x)
+      · intro x _ h; exact absurd h (hno x)
+      · intro x h; exact absurd h (hno x)
+      · intro x h; exact absurd h (hno x)
+      · intro x h; cases h
+      · trivial
+      · intro x h; cases h
+      · intro x h; exact absurd h (hno x)
+      · intro e h; cases h
+      · intro a _ _ h; exact absurd h (hno a)
+      · intro e h; cases h
+      · exact List.nodup_nil
+    obtain ⟨hgi, hall⟩ := outer_inv G hn G.nodes {} (fun v hv => hv) hinit
+    generalize G.nodes.foldl (fun (st : DSt) v =>
+        if hasKey st.disc v then st
+        else dfs G.sadj (G.nodes.length + 1) v { st with parent := aset st.parent v none }) {} = stF at hgi hall
+    refine ⟨?_, ?_, hgi.brNd⟩
+    · intro x
+      constructor
+      · intro hx; exact (hgi.apS x hx).1
+      · intro hc
+        have hc' := hc
+        obtain ⟨n1, _, h1, _⟩ := hc'
+        exact hgi.apC x (hall x (Or.inr (G.A_mem h1).1)) (by simp) hc
+    · intro e
+      constructor
+      · intro he; exact hgi.brS e he
+      · rintro ⟨a, b, rfl, hb⟩
+        have hm := G.A_mem hb.1
+        exact hgi.brC a b hb (hall a (Or.inr hm.1)) (by simp) (hall b (Or.inr hm.2)) (fun h => h)
 
 end Solvor.Net
